@@ -191,6 +191,61 @@ class Circle:
         return {"name": name.split(" raised")[0], "radius_below_1e-2": bool(xs[0] < F(1, 100)), "degree_reduced": bool(outcome and 1 in outcome["degrees"])}
 
 
+class RegularN:
+    """regular_polygon(n, radius, centre) for n != 4: the library fills a float64 array with radius*cos/sin, so the radius
+    is concrete here and the centre symbolic: n vertices centre + r (cos 2 pi k/n, sin 2 pi k/n) in counter-clockwise
+    order (float trigonometry: 1e-12), area n/2 r^2 sin(2 pi/n) (1e-9)"""
+
+    nfree = 0
+
+    def __init__(self, n, radius="5/2"):
+        self.n, self.r = n, F(radius)
+        self.names = ["cx", "cy"]
+
+    def domain(self, xs):
+        return [xs[0] >= -1000, xs[0] <= 1000, xs[1] >= -1000, xs[1] <= 1000]
+
+    def run(self, xs):
+        S = Primitive.regular_polygon(self.n, self.r, (xs[0], xs[1]))
+        return {"simple": type(S) is SimpleShape, "v": [list(p) for p in geom.jordan_vertices(S.jordans[0])], "area": IntegrateShape.area(S), "ccw": bool(S.jordans[0].__float__() > 0)}
+
+    def expected(self, xs):
+        return [(xs[0] + self.r * F(math.cos(math.tau * k / self.n)), xs[1] + self.r * F(math.sin(math.tau * k / self.n))) for k in range(self.n)]
+
+    def oblige(self, tr, out):
+        xs = [Sym.var(0, 0), Sym.var(1, 0)]
+        ev = self.expected(xs)
+        e = F(1, 10**11)
+        bad = [z3.BoolVal(len(out["v"]) != self.n or not out["simple"] or not out["ccw"])]
+        if len(out["v"]) == self.n:
+            for g, w in zip(out["v"], ev):
+                for a, b in zip(g, w):
+                    bad.append(R.zor(a - b > e, b - a > e))
+        ea = F(self.n, 2) * self.r * self.r * F(math.sin(math.tau / self.n))
+        a = out["area"]
+        return [("regular polygon: vertices are not on the circle at equal angles, counter-clockwise", z3.Or(bad), {}),
+                ("regular polygon: area is not n/2 r^2 sin(2 pi / n)", R.zor(a - ea > F(1, 10**9), ea - a > F(1, 10**9)), {})]
+
+    def on_raise(self, exc, func, line):
+        return "factory raised " + exc
+
+    def confirm(self, name, xs, outcome, exc):
+        desc = f"regular_polygon({self.n}, {self.r}, ({xs[0]}, {xs[1]}))"
+        if name.startswith("factory raised"):
+            return exc is not None, desc + f": {exc}"
+        if outcome is None:
+            return False, str(exc)
+        if "vertices" in name:
+            ev = self.expected(xs)
+            ok = len(outcome["v"]) == self.n and outcome["simple"] and outcome["ccw"] and all(abs(F(a) - b) <= F(1, 10**9) for g, w in zip(outcome["v"], ev) for a, b in zip(g, w))
+            return not ok, desc + f": {[[float(a) for a in p] for p in outcome['v']][:4]}"
+        ea = F(self.n, 2) * self.r * self.r * F(math.sin(math.tau / self.n))
+        return abs(F(outcome["area"]) - ea) > F(1, 10**8), desc + f": area {float(outcome['area'])} expected {float(ea)}"
+
+    def signature(self, name, xs, outcome, exc):
+        return {"name": name.split(" raised")[0]}
+
+
 class Invalid:
     """invalid integer / non-positive parameters raise ValueError (concrete enumeration of the integer
     parameters, symbolic non-positive radius)"""
@@ -240,6 +295,8 @@ def specs(tier):
         out.append(dict(module=Mo, scenario="Poly4", params=dict(what=w, valid=False)))
     for n in (4, 8, 16) if tier == "quick" else (4, 5, 8, 12, 16, 32, 64):
         out.append(dict(module=Mo, scenario="Circle", params=dict(n=n), time_budget=150 if tier == "quick" else 1500))
+    for n in (3, 5, 6) if tier == "quick" else (3, 5, 6, 7, 8, 12):
+        out.append(dict(module=Mo, scenario="RegularN", params=dict(n=n)))
     for k in (-1, 0, 1, 2):
         out.append(dict(module=Mo, scenario="Invalid", params=dict(what="nsides", k=k)))
     for k in (-2, 0, 1, 3):
